@@ -318,3 +318,33 @@ pub fn client_handler_snapshot<const S: usize>(h: &ConnHandler<S>) -> client::Ha
 pub fn server_handler_snapshot<const S: usize>(h: &ConnHandler<S>) -> server::HandlerSnapshot {
     server::handler_snapshot(&h.server_handler)
 }
+
+/// `ClientBehaviour::poll` alone (what `Behaviour::poll` calls first)
+pub fn client_poll<const S: usize, B>(
+    b: &mut crate::Behaviour<S, B>,
+    cx: &mut std::task::Context<'_>,
+) -> std::task::Poll<libp2p_swarm::ToSwarm<crate::Event, ToHandlerEvent>>
+where
+    B: blockstore::Blockstore + 'static,
+{
+    b.client.poll(cx)
+}
+
+/// `ClientBehaviour::get_new_blocks`
+pub fn client_get_new_blocks<const S: usize, B>(b: &mut crate::Behaviour<S, B>) -> Vec<(CidGeneric<S>, Vec<u8>)>
+where
+    B: blockstore::Blockstore + 'static,
+{
+    b.client.get_new_blocks()
+}
+
+/// `ServerBehaviour::poll` alone (what `Behaviour::poll` calls last)
+pub fn server_poll<const S: usize, B>(
+    b: &mut crate::Behaviour<S, B>,
+    cx: &mut std::task::Context<'_>,
+) -> std::task::Poll<libp2p_swarm::ToSwarm<crate::Event, ToHandlerEvent>>
+where
+    B: blockstore::Blockstore + 'static,
+{
+    b.server.poll(cx)
+}
